@@ -1,0 +1,30 @@
+//go:build verif
+
+package c07
+
+import (
+	dragonboat "github.com/lni/dragonboat/v4"
+	"github.com/lni/dragonboat/v4/config"
+	"github.com/lni/dragonboat/v4/internal/rsm"
+	"github.com/lni/dragonboat/v4/internal/vfs"
+	sm "github.com/lni/dragonboat/v4/statemachine"
+)
+
+// Re-exports for the node.go part of the C07 harness: a real *node (root
+// package hook VerifC07Node) with a real raft.Peer, node registry and
+// pendingConfigChange. Add-only; -tags verif only.
+
+// Node is dragonboat.VerifC07Node.
+type Node = dragonboat.VerifC07Node
+
+// NewNode builds the node for cfg with the initial members peers and a regular
+// in memory user state machine u; the node itself is the rsm.INode of the
+// rsm.StateMachine, snapshotter is supplied by the harness.
+func NewNode(cfg config.Config, peers map[uint64]string, validator config.TargetValidator,
+	u sm.IStateMachine, snapshotter ISnapshotter) *Node {
+	return dragonboat.NewVerifC07Node(cfg, peers, validator,
+		func(n rsm.INode) *rsm.StateMachine {
+			msm := rsm.NewNativeSM(cfg, rsm.NewInMemStateMachine(u), make(chan struct{}))
+			return rsm.NewStateMachine(msm, snapshotter, cfg, n, vfs.NewMemFS())
+		})
+}
